@@ -237,6 +237,7 @@ func (c *Ctx) WriteEvidence(dir, tier string, seed int, out *Outcome, extra map[
 		"rules":               c.RuleText,
 		"functions_analysed":  funcs,
 		"functions_in_repo":   len(c.P.Funcs),
+		"functions_note":      "every rule scans all functions_in_repo source functions (closures and generic instantiations included) for instances of its roles; functions_analysed lists the role-bearing functions whose paths were then searched",
 		"packages_loaded":     len(c.P.Pkgs),
 		"files_loaded":        c.P.Files,
 		"call_sites":          c.CallSites,
